@@ -10,6 +10,8 @@ import (
 	"testing"
 	"time"
 
+	"github.com/prometheus/client_golang/prometheus"
+
 	"github.com/thanos-io/thanos/pkg/receive"
 
 	"verif/harness/vt"
@@ -132,7 +134,28 @@ func c19Build(c vt.Case) (h receive.Hashring, res map[string]any) {
 			res["outcome"], res["msg"] = "panic", fmt.Sprint(r)
 		}
 	}()
-	h, err := buildRing(vt.Str(c["algo"]), vt.Int(c["rf"]), endpointsOf(c["eps"]), c19Shuffle(c))
+	// the configuration goes through the JSON loader (pkg/receive/config.go), as a hashring file does
+	type jep struct {
+		Address string `json:"address"`
+		AZ      string `json:"az"`
+	}
+	type jcfg struct {
+		Hashring  string                        `json:"hashring"`
+		Endpoints []jep                         `json:"endpoints"`
+		Shuffle   receive.ShuffleShardingConfig `json:"shuffle_sharding_config"`
+	}
+	jc := jcfg{Hashring: "h0", Shuffle: c19Shuffle(c)}
+	for _, e := range endpointsOf(c["eps"]) {
+		jc.Endpoints = append(jc.Endpoints, jep{Address: e.Address, AZ: e.AZ})
+	}
+	raw, err := json.Marshal([]jcfg{jc})
+	if err != nil {
+		panic(err)
+	}
+	cfg, err := receive.ParseConfig(raw)
+	if err == nil {
+		h, err = receive.NewMultiHashring(algoOf(vt.Str(c["algo"])), uint64(vt.Int(c["rf"])), cfg, prometheus.NewRegistry())
+	}
 	if err != nil {
 		res["outcome"], res["msg"] = "error", errStr(err)
 		return nil, res
